@@ -39,7 +39,8 @@ class FuncInfo:
 
     @property
     def is_property(self):
-        return "property" in self.decorators()
+        d = self.decorators()
+        return "property" in d or "cached_property" in d or "functools.cached_property" in d
 
     @property
     def is_static(self):
